@@ -1032,3 +1032,110 @@ class RingAlg(Alg):
         m >>= BITS
         i += 1
     return vs
+
+
+# ------------------------------------------------------------------------------------------------
+class Dep:
+  """a value that may depend on the set of input labels `s` (bitmask)"""
+  __slots__ = ('s',)
+
+  def __init__(self, s):
+    self.s = s
+
+  def __repr__(self):
+    return 'Dep(%s)' % bin(self.s)
+
+
+class DepAlg(Alg):
+  """Back end DEP: may-depend analysis.  Every operation's result depends on the union of its operands'
+  labels (conditions of selects included); concrete values depend on nothing.  Sound over-approximation of
+  information flow through the jaxpr: label sets only grow."""
+  name = 'dep'
+
+  def label(self, bit):
+    return Dep(1 << bit)
+
+  def arr(self, shape, bit):
+    a = np.empty(shape, dtype=object)
+    for idx in np.ndindex(*shape):
+      a[idx] = Dep(1 << bit)
+    return a
+
+  @staticmethod
+  def _u(*xs):
+    s = 0
+    for x in xs:
+      if isinstance(x, Dep):
+        s |= x.s
+    return Dep(s)
+
+  def add(self, a, b):
+    if isc(a) and isc(b):
+      return Alg.add(self, a, b)
+    return self._u(a, b)
+  sub = add
+
+  def mul(self, a, b):
+    if isc(a) and isc(b):
+      return Alg.mul(self, a, b)
+    if (isc(a) and a == 0) or (isc(b) and b == 0):
+      return 0
+    return self._u(a, b)
+
+  def div(self, a, b):
+    if isc(a) and isc(b):
+      return Alg.div(self, a, b)
+    return self._u(a, b)
+
+  def max(self, a, b):
+    if isc(a) and isc(b):
+      return Alg.max(self, a, b)
+    return self._u(a, b)
+  min = max
+
+  def cmp(self, op, a, b):
+    if isc(a) and isc(b):
+      return Alg.cmp(self, op, a, b)
+    return self._u(a, b)
+
+  def and_(self, a, b):
+    if isc(a) and isc(b):
+      return a and b
+    if (isc(a) and not a) or (isc(b) and not b):
+      return False
+    return self._u(a, b)
+
+  def or_(self, a, b):
+    if isc(a) and isc(b):
+      return a or b
+    return self._u(a, b)
+
+  def ite(self, c, a, b):
+    if isc(c):
+      return a if c else b
+    return self._u(c, a, b)
+
+  def _one(self, a, *rest):
+    return self._u(a)
+  _neg = _sqrt = _abs = _sign = _not = _to_float = _to_bool = _one
+
+  def _to_int(self, a, k):
+    return self._u(a)
+
+  def ipow(self, a, y):
+    if isc(a):
+      return Alg.ipow(self, a, y)
+    return self._u(a)
+
+  def _fn(self, name, *args):
+    return self._u(*args)
+
+  def _inexact_const(self, name, args, v):
+    return Fraction(v) if v == v and v not in (INF, -INF) else v
+
+  def rem(self, a, b):
+    return self._u(a, b)
+  idiv = rem
+
+  def fresh_array(self, nm, shape, kind, P):
+    raise Unsupported('opaque call in DEP analysis')
